@@ -6,7 +6,7 @@ CHECKS = {
  # id: (category, technique, text, note, design_ref)
  "C01": ("exploration", "reference-model audit after every call on generated fork trees (pure consensus replay as oracle)",
          "Every AddBlocks/AddValidatedV2Blocks call of generated histories (random fork trees x corruptions x schedules, plus the enumerated invalid-fork class d<=L<=6, k<=6 per regime) is predicted by a model built only from core/consensus labels and audited: tip, tip state bytes vs pure replay, index, blocks, states, element buckets and served proofs, work monotonicity, unchanged served view after any failed submission or rolled-back reorg, no panic.",
-         "core/consensus is the trusted oracle; histories <= ~400 blocks on small test networks; future-block rule exercised only far from the boundary.", "§3 C01"),
+         "core/consensus is the trusted oracle; histories <= ~510 blocks on small test networks (difficulty 1 or 2^10, Oak hardfork at height 1 or 500); future-block rule exercised only far from the boundary.", "§3 C01"),
  "C02": ("exploration", "differential monitoring: reorged node vs linear twin vs pure ledger, byte-level served views",
          "Complete served views (tip state, index, stored blocks with supplements, element buckets incl. expiration lists, served elements with Merkle proofs, window ids, next block's expiring contracts) of a node driven through forks, reorgs and failed reorgs are compared byte for byte with a fresh node fed the final best chain linearly, at PRNG-chosen points of generated histories in all regimes, for checkpoint-initialised stores, and in the dedicated expiration-order scenario (known finding KF-C02-1).",
          "Tree-bucket nodes beyond the leaf count are excluded (never read by contract; served proofs are compared instead); v1 contracts get distinct window ends outside the order scenarios.", "§3 C02"),
@@ -18,7 +18,7 @@ CHECKS = {
          "Subscribers only start from nothing or from indices they reached themselves; pruned stores are C19's business.", "§3 C04"),
  "C05": ("exploration", "reference-model monitoring of the transaction pool after every step of generated histories, plus race detector on MineBlock vs submissions",
          "After every pool submission, block, reorg and mined block of generated histories the reported pool sequence is validated transaction by transaction by core/consensus against the pure tip ledger; blocks mined by coreutils.MineBlock are labelled by the pure oracle and must be adopted; every accepted transaction that disappears must be confirmed, have an input spent/reverted in that step (exact ledger differences of the reverted/applied blocks), or be invalid on the new tip under the oracle. MineBlock also runs against concurrent submissions under -race.",
-         "Pool-full eviction is not reached; v1 contracts get globally distinct window ends.", "§3 C05"),
+         "Pool-full eviction is driven only in the dedicated scenarios (independent ~1.8 MB transactions with distinct fee rates; re-submission of one large pooled transaction); v1 contracts get globally distinct window ends.", "§3 C05"),
  "C06": ("exploration", "reference-model monitoring of the wallet store after syncing through generated reorg histories",
          "A SingleAddressWallet over the in-repo reference store follows wallet-heavy generated histories (miner, payee, spender, v1/v2 contract party, siafund owner/claimant, Foundation address) in chunks that lag and end on reverts; whenever it is at the tip its outputs must equal the pure ledger's outputs paying the address (value, maturity, leaf index, proof verifying at the tip), no event may stem from a reverted block, sum(inflow)-sum(outflow) and Balance confirmed+immature must equal the sum of outputs; finally its event multiset must equal that of a wallet that followed the best chain linearly.",
          "Only the in-repo reference store is exercised; the harness tracks the index the stream left the wallet at (the reference store records the reverted index).", "§3 C06"),
@@ -36,10 +36,10 @@ CHECKS = {
          "Errors are always acceptable; unauthenticated-by-design RPCs (settings, balance) are liveness-only; RPCLatestRevision is a known finding (KF-C10-1).", "§3 C10"),
  "C11": ("fault_enumeration", "scripted Byzantine gateway peer (61-row fault table) against a real syncer with an auditing ChainManager proxy, bounded-progress and ban oracles, race detector",
          "One real victim syncer on its own loopback address with one or two scripted Byzantine peers (and optionally an honest peer holding the heavier valid chain): every victim-issued RPC (SendHeaders, SendV2Blocks, SendCheckpoint, SendTransactions) and victim-served relay is answered from a 61-row corruption table x position x regime (below/above the require height, instant sync) x peer mix; after every manager call and every 50 ms the victim's tip must be a chain-valid generated block with state byte-equal to the pure replay and non-decreasing work; no crash; with an honest peer connected the honest tip must be reached within the bound; provable offences must reach PeerStore.Ban.",
-         "Bounded-liveness restatement (60 s + 35 s per unanswered SendHeaders; unchanged tree: seconds); loopback networking; volume-based exhaustion and eclipse attacks out of scope.", "§3 C11"),
+         "Bounded-liveness restatement: a stall is a violation only when the deadline (60 s + 35 s per unanswered SendHeaders; unchanged tree: seconds) has passed AND the activity tracker shows the system quiescent or repeating without progress; slow-but-active cases are counted inconclusive; loopback networking; volume-based exhaustion and eclipse attacks out of scope.", "§3 C11"),
  "C12": ("exploration", "cluster convergence monitoring with tip trajectories, final audits and the race detector",
          "Clusters of 2-6 honest nodes hold different branches of one generated tree (fork points around the hardfork heights, branch lengths around the history-sample spacing and the 100-block request split, checkpoint-bootstrapped nodes, MaxSendBlocks 1/7/100, peer caps 1/2/8, line/star/ring/complete topologies, PRNG connection order, jitter): within the bound all tips must equal the unique sufficiently heavier valid branch, every sampled trajectory has non-decreasing work, every node passes the final chain audit.",
-         "Bounded-liveness restatement (90 s; unchanged tree 0.5-10 s); assignments are generated with exactly one sufficiently heavier branch (otherwise no verdict).", "§3 C12"),
+         "Bounded-liveness restatement: no-convergence is a violation only when the 90 s deadline (unchanged tree 0.5-10 s) has passed AND the activity tracker shows the cluster quiescent or repeating without progress; slow-but-active clusters are counted inconclusive; assignments are generated with exactly one sufficiently heavier branch (otherwise no verdict).", "§3 C12"),
  "C13": ("exploration", "reference-model monitoring of proof rebasing against pure ledgers along path(from->to)",
          "For PRNG pairs of applied indices on the same or different forks of generated trees and v2 sets valid at 'from' (ephemeral chains, siafund spends, contract formation/revision/renewal/storage proof/expiration), the result of UpdateV2TransactionSet is compared with the expectation computed from the pure ledgers: input minus confirmed in order, each parent element equal to the ledger's leaf index and proof at 'to', ephemeral inputs that became confirmed carry the confirmed element, errors (never panics) for corrupted proofs/leaf indices/unknown bases and for elements that never existed on the target chain; V2TransactionSet ordering/basis/acceptance; caller memory; paths of 1..160 blocks.",
          "Only indices that were the best tip at some moment are used as from/to (others carry header-only states); an element re-created with the same id on the other fork may be refused (no verdict); spent-at-target gives no verdict.", "§3 C13"),
